@@ -43,7 +43,8 @@ META = {'design_ref': 'DESIGN.md section 7 / C06',
                'at or after the cursor, cyclically, wrap 65535 -> 1). The engine-wide statements (two incomplete operations never share an id; an id stays '
                'reserved exactly as long as its operation is incomplete; none remains after quiescence) are conjuncts of the WF invariant (EngineProofs/WF*.v, '
                'exported as C06_nonzero_unique / C06_no_leak when that development closes) and are judged on every history by the monitor mon_c06 (ids on the '
-               'wire unique among in-flight operations, non-zero, nothing reserved when no operation is incomplete), with the cursor preset near 65535 in 15% '
+               'wire unique among in-flight operations, non-zero, nothing reserved when no operation is incomplete) and mon_c06_retx (a DUP publish / PUBREL carries '
+               'the identifier its operation was transmitted with earlier in the session), with the cursor preset near 65535 in 15% '
                'of the histories so that wrap-around is exercised.',
  'technique': 'machine-checked proof in Coq over the engine model + lock-step correspondence of the extracted model with the implementation + extracted '
               'monitors on the implementation trace'}
